@@ -36,9 +36,9 @@ DEP5 = "Format: https://www.debian.org/doc/packaging-manuals/copyright-format/1.
 HDR = "# SPDX-FileCopyrightText: 2020 Jane\n# SPDX-License-Identifier: MIT\n"
 # stand-alone trees outside the defect lattice (no verdict model needed: C13's oracle is the agreement of the formats)
 EXTRAS = {
-    # the synopsis of a paragraph is parsed only when a file matches it: that file cannot be reported on
-    "dep5-unparseable-paragraph": {
-        "recipe": {".reuse/dep5": DEP5 + "Files: src/ok.py\nCopyright: 2020 Jane\nLicense: MIT\n\nFiles: src/broken.py docs/*\nCopyright: 2020 Jane\nLicense: MIT OR\n",
+    # fields in forms that deb822 allows: a value that starts on the continuation line, '.' for an empty line, a License field without synopsis
+    "dep5-odd-fields": {
+        "recipe": {".reuse/dep5": DEP5 + "Files: src/ok.py\nCopyright:\n 2020 Jane\n .\n 2021 John\nLicense: MIT\n\nFiles: src/broken.py docs/*\nCopyright: 2020 Jane\nLicense:\n text of some licence\n .\n more text\n",
                    "src/ok.py": "x = 1\n", "src/broken.py": "y = 1\n", "docs/also.md": "doc\n", "src/own.py": HDR, "LICENSES/MIT.txt": "mit\n", "LICENSE": "text\n"},
         "roles": {"h": "src/ok.py", "f": "src/broken.py", "g": "docs/also.md", "k": "src/own.py"}, "licenses": ["LICENSES/MIT.txt"]},
     "toml-odd-values": {
